@@ -2524,7 +2524,62 @@ def _fold_table_comprehensions(tree):
 _CAST_NAMES = [set(), set()]  # names bound to typing.cast / to the typing module in the tree being canonicalised
 
 
+class _MatchToIf(ast.NodeTransformer):
+    """`match S: case P1: A; case P2 if g: B; case _: C` over value / or / singleton / class-without-arguments / wildcard
+    patterns is the if-chain of the equivalent tests (`S == v`, `S is None`, `isinstance(S, K)`), the subject evaluated
+    once.  Anything else (sequence, mapping, capture patterns) is left alone."""
+
+    _n = [0]
+
+    def _test(self, subj, pat):
+        if isinstance(pat, ast.MatchValue) and isinstance(pat.value, (ast.Constant, ast.Attribute)):
+            return _loc(ast.Compare(left=copy.deepcopy(subj), ops=[ast.Eq()], comparators=[pat.value]), pat)
+        if isinstance(pat, ast.MatchSingleton):
+            return _loc(ast.Compare(left=copy.deepcopy(subj), ops=[ast.Is()], comparators=[_loc(ast.Constant(value=pat.value), pat)]), pat)
+        if isinstance(pat, ast.MatchClass) and not pat.patterns and not pat.kwd_patterns and isinstance(pat.cls, (ast.Name, ast.Attribute)):
+            return _loc(ast.Call(func=_loc(ast.Name(id="isinstance", ctx=ast.Load()), pat), args=[copy.deepcopy(subj), pat.cls], keywords=[]), pat)
+        if isinstance(pat, ast.MatchOr):
+            parts = [self._test(subj, q) for q in pat.patterns]
+            if any(x is None for x in parts):
+                return None
+            return _loc(ast.BoolOp(op=ast.Or(), values=parts), pat)
+        if isinstance(pat, ast.MatchAs) and pat.pattern is None and pat.name is None:
+            return True
+        return None
+
+    def visit_Match(self, node):
+        self.generic_visit(node)
+        pre = []
+        subj = node.subject
+        if not isinstance(subj, ast.Name):
+            if any(isinstance(x, (ast.Call, ast.NamedExpr, ast.Yield, ast.Await)) for x in ast.walk(subj)) or True:
+                self._n[0] += 1
+                nm = f"match__s{self._n[0]}"
+                pre.append(_loc(ast.Assign(targets=[_loc(ast.Name(id=nm, ctx=ast.Store()), node)], value=subj), node))
+                subj = _loc(ast.Name(id=nm, ctx=ast.Load()), node)
+        tests = []
+        for c in node.cases:
+            t = self._test(subj, c.pattern)
+            if t is None:
+                return node
+            tests.append(t)
+        chain = None
+        for c, t in reversed(list(zip(node.cases, tests))):
+            if t is True and c.guard is None:
+                chain = list(c.body)
+                continue
+            cond = c.guard if t is True else (t if c.guard is None else _loc(ast.BoolOp(op=ast.And(), values=[t, c.guard]), c.pattern))
+            chain = [_loc(ast.If(test=cond, body=list(c.body), orelse=chain or []), c.pattern)]
+        out = pre + (chain or [_loc(ast.Pass(), node)])
+        for x in out:
+            ast.fix_missing_locations(x)
+        return out
+
+
 def _canonicalise_once(tree):
+    if any(isinstance(n, ast.Match) for n in ast.walk(tree)):
+        tree = _MatchToIf().visit(tree)
+        ast.fix_missing_locations(tree)
     _CAST_NAMES[0], _CAST_NAMES[1] = set(), set()
     for n in ast.walk(tree):
         if isinstance(n, ast.ImportFrom) and n.module in ("typing", "typing_extensions") and n.level == 0:
